@@ -5,7 +5,7 @@ From GoPdf.Gen Require Gen_Consts Gen_C15.
 From GoPdf.C01 Require Import Lex Obj Num Names Strings Format Wf.
 From GoPdf.C01 Require Import BufSrc.
 From GoPdf.C15 Require Import Content State ContentSpec ContentProofs ImageProofs ValueProofs CanonLink StateProofs
-  TokenSrc TokenSrcProofs.
+  TokenSrc TokenSrcProofs BuilderModel BuilderModelProofs.
 Import ListNotations.
 Open Scope N_scope.
 
@@ -154,3 +154,28 @@ Example lookahead_split_ex :
   fst (run_buf 2 false token_head_p (bstart 2 [[60]] false)) = HHex /\
   fst (run_buf content_buf false token_head_p (bstart content_buf [[62]; [62; 32]] false)) = HDictClose.
 Proof. vm_compute. repeat split; reflexivity. Qed.
+
+(* Builder calls are functions of argument VALUES.  A caller's program interleaves Builder calls,
+   whose map and slice arguments live in heap cells that several calls may share, with mutations
+   of those cells.  The stream the Builder holds is [build_ops] of the values each call saw at
+   the time of the call - so two programs whose calls see the same values build the same stream,
+   whatever cells they share and whatever happens to the cells between the calls and afterwards -
+   and the Builder leaves the caller's cells as the caller's own mutations left them.  (The
+   harness runs aliasing schedules on the real Builder against [build_ops].) *)
+Theorem builder_values : forall v2 evs1 h1 evs2 h2,
+  call_values evs1 h1 = call_values evs2 h2 ->
+  fst (run_builder v2 evs1 h1 []) = fst (run_builder v2 evs2 h2 []) /\
+  fst (run_builder v2 evs1 h1 []) = build_ops v2 (call_values evs1 h1) /\
+  snd (run_builder v2 evs1 h1 []) = caller_heap evs1 h1.
+Proof. exact builder_values_lemma. Qed.
+Print Assumptions builder_values.
+
+(* the same dictionary cell used for two images with data of different lengths (PDF 2.0): each
+   operator gets the /L of its own data, and the caller's dictionary still has no /L *)
+Example builder_alias_ex :
+  run_builder true [ECall (RImage 0 1); EMut 1 (CBytes [1; 2; 3]); ECall (RImage 0 1)]
+              [CDict [(k_W, OInt 1); (k_H, OInt 1)]; CBytes [7]] []
+  = ([image_op [(k_W, OInt 1); (k_H, OInt 1); (k_L, OInt 1)] [7];
+      image_op [(k_W, OInt 1); (k_H, OInt 1); (k_L, OInt 3)] [1; 2; 3]],
+     [CDict [(k_W, OInt 1); (k_H, OInt 1)]; CBytes [1; 2; 3]]).
+Proof. vm_compute. reflexivity. Qed.
